@@ -45,7 +45,7 @@ vars == <<l, rs, bad, cov, dead, deadc, runs, conf, drift>>
    further (each such clause is reported once per run); any other violation ends the judgement of
    the run (no cascades) *)
 LocalClauses == {"C12.cadence", "C12.range", "C12.reply.state", "C12.reply.when", "C12.ready", "C13.hold", "C13.starve",
-                 "C15.rr", "C15.done", "C15.form", "C11.own", "C02.stable", "C02.order", "C06.stable", "C06.order", "C06.alive"}
+                 "C15.rr", "C15.done", "C15.once", "C15.form", "C11.own", "C02.stable", "C02.order", "C06.stable", "C06.order", "C06.alive"}
 
 NoCfg == [none |-> TRUE]
 
